@@ -166,6 +166,9 @@ func cmdCheck(args []string) int {
 		frs = append(frs, &fr{res, vcs})
 		for _, vc := range vcs {
 			for _, o := range vc.Obls {
+				if matchKnown(&known, *prop, res.Key, o) != nil {
+					o.Quick = true
+				}
 				jobs = append(jobs, solveJob{vc: vc, o: o})
 			}
 		}
